@@ -81,6 +81,7 @@ def genTy : Nat → Schema → TypeRef → Rng → Option (Val × Rng)
       let (l, r0) := r.below 7
       let (bs, r1) := Rng.bytes l r0
       some (.prim bs, r1)
+    else if n == "Dictionary" || n == "dictionary" then none  -- kernel dictionary heuristics (sorted, unique keys) are not modelled
     else
       let pick : Option (Comb × Rng) :=
         match findCons s n with
@@ -145,7 +146,7 @@ def compatReasons (old new : Schema) : List String :=
   (typeOrder old).flatMap (fun T =>
     (if (findCons new T).isNone && (findCons old T).isNone then [] else ["shadow"]) ++
     (match typeCombs old T with
-     | [c] => if (typeCombs new T).length ≤ 1 || !usedBareSomewhere old c then [] else ["union-bare"]
+     | [c] => if (typeCombs new T).length ≤ 1 then [] else [if usedBareSomewhere old c then "union-bare" else "union-boxed"]
      | _ => [])) ++
   (funcCombs old).flatMap (fun f => match findFunc new f.name with
     | some f' => if combCompat f f' then [] else (combReasons f f').map (fun r => "fn-" ++ r)
